@@ -120,8 +120,60 @@ class Recorder:
         t = asyncio.current_task()
         self._tids[id(t)] = n
 
+    def begin_op(self, *desc):
+        """The current asyncio task starts a new pumped operation: it gets the next id, logged as ("op", id, *desc)."""
+        t = asyncio.current_task()
+        n = self.nops = getattr(self, "nops", 0) + 1
+        self._tids[id(t)] = n - 1
+        self.log("op", n - 1, *desc)
+        return n - 1
+
     def log(self, *ev):
         self.events.append(tuple(ev))
+
+
+class RecLock:
+    """asyncio.Lock wrapper that logs every acquisition: ("acq", tid, which)  (which: 0 = first lock created = send
+    lock, 1 = recv lock)."""
+
+    def __init__(self, real, rec, which):
+        self.real, self.rec, self.which = real, rec, which
+
+    async def acquire(self):
+        try:
+            await self.real.acquire()
+        except asyncio.CancelledError:
+            self.rec.log("cancel", self.rec.tid())
+            raise
+        self.rec.log("acq", self.rec.tid(), self.which)
+        return True
+
+    def release(self):
+        self.real.release()
+
+    def locked(self):
+        return self.real.locked()
+
+    async def __aenter__(self):
+        await self.acquire()
+
+    async def __aexit__(self, *a):
+        self.release()
+
+
+class RecBackend:
+    """The backend handed out by the wrapped transport: create_fair_lock() gives recording locks."""
+
+    def __init__(self, real, rec):
+        self._real, self._rec, self._n = real, rec, 0
+
+    def create_fair_lock(self):
+        lock = RecLock(self._real.create_fair_lock(), self._rec, self._n)
+        self._n += 1
+        return lock
+
+    def __getattr__(self, name):
+        return getattr(self._real, name)
 
 
 class RecBIO:
@@ -256,6 +308,7 @@ class Peer:
         self.read_error = None
         self.total_out = 0
         self.reply_close = False         # answer the other side's close-notify with our own
+        self.lazy = False                # run one script step per pump() instead of the whole script
         self.replied = False
 
     def feed(self, data: bytes):
@@ -275,7 +328,9 @@ class Peer:
             except ssl.SSLError as exc:
                 self.read_error = classify(exc)
         if self.handshaken:
-            while self.script:
+            budget = 1 if self.lazy else len(self.script)
+            while self.script and budget > 0:
+                budget -= 1
                 step = self.script.pop(0)
                 try:
                     if step[0] == "write":
